@@ -612,7 +612,21 @@ def t_json_items(t):
                 back.append("\x1f".join([_wire_field(j.get("begin"), int), _wire_field(j.get("end"), int), _wire_field(j.get("name"), str),
                                           _wire_field(j.get("source"), int), _wire_field(j.get("value"), str), _wire_field(j.get("jumpType"), str),
                                           _wire_field(j.get("modifierDepth"), int)]))
-            out.append({"path": list(path), "items": win, "n": len(items), "real": "\x1e".join(bcs) + "\x1d" + "\x1e".join(back)})
+            sec = {"path": list(path), "items": win, "n": len(items), "real": "\x1e".join(bcs) + "\x1d" + "\x1e".join(back)}
+            # the section cut into blocks by the real block builder (PUSHLIB tables start empty in every block)
+            try:
+                import copy as _copy
+                blks = parser_asm.build_blocks_from_asm_representation("C", "C_x", _copy.deepcopy(items), False)
+                def wb(bc):
+                    v = bc.value
+                    return "\x1f".join([str(bc.begin), str(bc.end), str(bc.source), str(bc.disasm),
+                                         "-" if v is None else ("=i%d" % v if isinstance(v, int) and not isinstance(v, bool) else "=s" + str(v)),
+                                         _wire_field(bc.jump_type, str), _wire_field(bc.modifier_depth, int), _wire_field(bc.real_value, str)])
+                sec["real_blocks"] = "\x1d".join("\x1e".join(wb(bc) for bc in b.instructions) for b in blks)
+            except Exception as ex:
+                sec["real_blocks"] = "raise"
+                sec["blocks_exception"] = "%s: %s" % (type(ex).__name__, ex)
+            out.append(sec)
         except Exception as ex:
             out.append({"path": list(path), "items": win, "n": len(items), "real": "raise", "exception": "%s: %s" % (type(ex).__name__, ex)})
     return {"sections": out}
